@@ -164,7 +164,8 @@ def generate(rng, opts):
     cfg["top_conflict"] = rng.random() < 0.3
     cfg["stubs_pkg"] = rng.random() < 0.15
     cfg["symlinks"] = rng.random() < 0.2
-    n_sp = rng.choice([1, 2, 2, 3])
+    two_pth = rng.random() < 0.08
+    n_sp = rng.choice([3, 4, 4]) if two_pth else rng.choice([1, 2, 2, 3])
     dirs = []
     tops = rng.sample(TOP_NAMES, rng.choice([1, 1, 2]))
     # a pkgutil/pkg_resources-style namespace only works when every portion declares it: keep that consistent
@@ -194,7 +195,18 @@ def generate(rng, opts):
                         files[f"{top}-stubs/{child}.pyi"] = _body("pyi", f"sp{sp}/{top}-stubs/{child}.pyi")
         dirs.append(files)
     n_listed = n_sp
-    if rng.random() < 0.2 and n_sp >= 2:
+    if two_pth:
+        # the last two directories are reachable only through .pth files, placed in any listed directory under any
+        # name (one file or two, in one directory or two): CPython's site module reads the .pth files of a directory
+        # in sorted order and the directories in search-path order, and appends what they name in that order
+        n_listed = n_sp - 2
+        for u in (n_sp - 2, n_sp - 1):
+            holder = rng.randrange(n_listed)
+            fname = rng.choice(["a.pth", "extra.pth", "zz.pth", "B.pth", "_x.pth"])
+            prev = dirs[holder].get(fname, rng.choice(["", "# comment\n", "\n"]))
+            dirs[holder][fname] = prev + f"<SP{u}>\n" + rng.choice(["", "<ROOT>/does-not-exist\n"])
+        cfg["pth_flavor"] = "plain-two"
+    elif rng.random() < 0.2 and n_sp >= 2:
         # the last directory is reachable only through a .pth file in the first one
         n_listed = n_sp - 1
         last = n_sp - 1
@@ -500,6 +512,29 @@ def conflict_tags(dirs, dotted):
     return sorted(tags)
 
 
+def _pth_additions(dirs, order, sp_dirs):
+    """Directories CPython's `site.addsitedir` appends for the listed search paths, in its order: search paths in
+    order, their .pth files in sorted order, lines in order (an `import x` line stands for what module x maps)."""
+    import re
+
+    out = []
+    for i in order:
+        files = dirs[i]
+        for fname in sorted(f for f in files if "/" not in f and f.endswith(".pth") and not f.startswith(".")):
+            text = files[fname] if isinstance(files[fname], str) else ""
+            for line in text.splitlines():
+                line = line.strip()
+                src = line
+                if line.startswith("import "):
+                    body = files.get(line[len("import "):].strip() + ".py")
+                    src = body if isinstance(body, str) else ""
+                for k in re.findall(r"<SP(\d+)>", src):
+                    d = sp_dirs[int(k)] if int(k) < len(sp_dirs) else None
+                    if d is not None and d not in out:
+                        out.append(d)
+    return out
+
+
 def execute(plan, ctx):
     import _griffe.loader as gl
     import griffe
@@ -523,7 +558,7 @@ def execute(plan, ctx):
                 sps.insert(pos, fpath)
         outside = plan.get("outside")
         outside_dir = w.sp_dirs[outside["idx"]] if outside and outside["idx"] < len(w.sp_dirs) else None
-        oracle_sps = sps + [d for d in w.sp_dirs if d not in sps and d != outside_dir]
+        oracle_sps = sps + [d for d in _pth_additions(world["dirs"], order, w.sp_dirs) if d not in sps and d != outside_dir]
         target = plan["target"]
         results = []
         old_cwd = os.getcwd()
